@@ -48,6 +48,8 @@ var c13Wraps = []string{
 	"select key + '_x', value + key, key + value where %s",
 	"select count(1), sum(int(value)) where %s", "select value, count(1) as c where %s group by value",
 	"select value, count(1) as c where %s group by value order by c desc limit 1, 2", "select value, max(key) where %s group by value limit 1, 1",
+	// wave 15 (C13-aa): a statement that hands out no row still opens and positions its cursor - those calls can fail
+	"select * where %s limit 0", "select key, value where %s order by value desc limit 0",
 }
 
 var c13Writes = []string{
